@@ -204,6 +204,26 @@ def run_case(ctx, case):
             ctx.add("parse_exceptions", type(e).__name__)
             return
         res[(kind, ns)] = flat
+    # the module-level convenience functions (html5lib.parse / parseFragment, builder given by name) are the same
+    # configurations through another door: every 4th case
+    if len(data) % 4 == 0:
+        import html5lib
+        for kind, ns in (("etree", True), ("dom", False), ("dom", True), ("etree", False)):
+            try:
+                if frag:
+                    t = html5lib.parseFragment(data, container=cont, treebuilder=kind, namespaceHTMLElements=ns, scripting=scr)
+                else:
+                    t = html5lib.parse(data, treebuilder=kind, namespaceHTMLElements=ns, scripting=scr)
+                f2 = h5.canon_of(t, kind)
+            except Exception as e:
+                ctx.violation("convenience-api-raised:" + type(e).__name__, case, "%s ns=%s: %r" % (kind, ns, e))
+                return
+            ctx.count("convenience_api_compared")
+            if f2 != res[(kind, ns)]:
+                ctx.violation("convenience-api-differs:%s%s" % (kind, "" if ns else "-nons"), case,
+                              "html5lib.parse%s(treebuilder=%r, namespaceHTMLElements=%r): %s" % (
+                                  "Fragment" if frag else "", kind, ns, canon.diff_text(res[(kind, ns)], f2, "HTMLParser", "module function")))
+                return
     interesting = any(k.split(".")[1] in ("insertBefore", "removeChild", "reparentChildren", "cloneNode",
                                           "insertText(before)") for k in _prim)
     ctx.case([data, frag, cont, scr], nontrivial=interesting)
